@@ -260,6 +260,7 @@ func c07Frozen(lang string) {
 	g := c06Gen(false)
 	g.Names = []string{"Bar", "Baz"}
 	g.Defaults = true
+	g.Kinds |= symir.KIntersection
 	in := c06Input(g, 1)
 	if v.Bool("entrypoint") {
 		in[0].EntryPoint = "Foo"
